@@ -461,11 +461,51 @@ def oracle_scenario(scn):
     return None if j is None else j[1]
 
 
+def oracle_history(inp):
+    """several scenarios one after the other in ONE process (what an earlier session left behind in
+    class-level or module-level state is part of the input): the first one judged failing"""
+    for n, scn in enumerate(inp['calls']):
+        j = judge(scn, run_scenario(scn))
+        if j is not None and inp.get('key') in (None, j[0]):
+            return 'scenario %d of the history: %s' % (n, j[1])
+    return None
+
+
+ORACLES = {'scenario': oracle_scenario, 'history': oracle_history}
+
+
 def replay(data):
     r = data['replay']
     if 'oracle' not in r:
         return False
-    return oracle_scenario(r['input']) is None
+    return ORACLES[r['oracle']](r['input']) is None
+
+
+def reproduce(scn, before, key):
+    """-> replay dict for a scenario judged failing (violation `key`) in this process after the
+    scenarios `before`: the scenario alone if it fails from a clean start, else the shortest history
+    found that does (same violation)"""
+    alone = {'oracle': 'history', 'input': {'calls': [scn], 'key': key}}
+    if not C.holds_in_fresh_process('C06', alone):
+        return {'oracle': 'scenario', 'input': scn}, True
+
+    def fails(seq):
+        return not C.holds_in_fresh_process('C06', {'oracle': 'history', 'input': {'calls': seq + [scn], 'key': key}})
+    cur = list(before)
+    if not fails(cur):
+        return {'oracle': 'history', 'input': {'calls': cur + [scn], 'key': key}}, False
+    while len(cur) > 1:                      # a single earlier scenario usually suffices: halve
+        a, b = cur[:len(cur) // 2], cur[len(cur) // 2:]
+        if fails(b):
+            cur = b
+        elif fails(a):
+            cur = a
+        else:
+            break
+    seq = cur + [scn]
+    if len(seq) <= 12:
+        seq = C.shrink_history('C06', 'history', seq, extra={'key': key}) or seq
+    return {'oracle': 'history', 'input': {'calls': seq, 'key': key}}, True
 
 
 # --------------------------------------------------------------------------
@@ -511,6 +551,15 @@ def rnd32(rng):
 
 def scenarios(rng, q):
     out = []
+    # sessions against different BMCs one after the other in this process, capability sets in varied
+    # order (strong then weak, weak then strong), on fresh objects (consecutive scenarios) and on
+    # re-used Session / Rmcp objects (segments of one scenario)
+    for order in ([0x14, 0x10, 0x01], [0x01, 0x10, 0x04], [0x37, 0x11, 0x01, 0x15], [0x10, 0x04, 0x10, 0x01]):
+        for caps in order:
+            out.append(('caps-order-fresh-objects', {'cfg': gen_cfg(rng), 'segments': [
+                {'bmc': gen_bmc(rng, caps), 'ops': [['est', rnd32(rng)]] + gen_reqs(rng, 1) + [['close']]}]}))
+        out.append(('caps-order-reused-objects', {'cfg': gen_cfg(rng), 'segments': [
+            {'bmc': gen_bmc(rng, caps), 'ops': [['est', rnd32(rng)]] + gen_reqs(rng, 1) + [['close']]} for caps in order]}))
     # every capability subset (x reserved / v2.0 bits), with 0..5 follow-up requests
     for m in range(32):
         caps = sum(1 << b for i, b in enumerate(CAPS_BITS) if m >> i & 1)
@@ -618,8 +667,8 @@ def run(ctx):
         terms.append(term)
         meta.append(info)
 
-    decode_cases(rng, q, add)
     ndg = 0
+    done = []
     for kind, scn in scenarios(rng, q):
         rec = run_scenario(scn)
         ndg += len(rec['log'])
@@ -627,9 +676,17 @@ def run(ctx):
             add(t, (kind, scn))
         j = judge(scn, rec)
         res.evaluations += 1
-        if j and j[0] not in fails:
-            fails[j[0]] = C.Violation(key=j[0], what=j[1], replay={'oracle': 'scenario', 'input': scn})
+        if j and j[0] not in fails and len(fails) < 6:
+            # the scenarios run before in this process are part of the input: store what reproduces
+            # from a clean start (confirmed / shrunk in fresh processes)
+            rp, ok = reproduce(scn, done, j[0])
+            n = len(rp['input']['calls']) if rp['oracle'] == 'history' else 1
+            fails[j[0]] = C.Violation(key=j[0], what=j[1] + (' [history of %d scenario(s)%s]' % (
+                n, '' if ok else ', not reproduced from a clean start') if n > 1 or not ok else ''),
+                replay=rp, found_input=ok)
+        done.append(scn)
         D.add(('scn', repr(scn)), True, kind)
+    decode_cases(rng, q, add)
     failing, errors = C.coq_cases('C06', 'Model.Rmcp Model.Session Model.Bmc15 Corr.C05 Corr.C06', terms, shard=40)
     res.mismatches = [{'case': meta[i], 'term': terms[i][:600]} for i in failing[:30]]
     res.corr_errors = errors
@@ -639,7 +696,8 @@ def run(ctx):
     res.rule = ('scenarios on one Rmcp + Session object behind a scripted socket: all 32 capability subsets, initial inbound '
                 'numbers around the 32-bit wrap, user / password lengths 0..16, 3 privilege levels, 0..9 follow-up requests, '
                 'retries 0..3, silence / error code / short / long / empty reply at each of the 5 handshake steps followed by '
-                're-establishing on the same objects, re-establishing after close and without close, close twice / first; '
+                're-establishing on the same objects, re-establishing after close and without close, close twice / first; sessions '
+                'against BMCs with different capability sets in varied order on fresh and on re-used objects (all in one process); '
                 'plus get_max_auth_type on all 256 support bytes and decode of the 5 responses at every length. '
                 'distinct = distinct scenarios, all non-trivial')
     res.samples = [{'term': terms[i][:400], 'case': meta[i]} for i in (0, len(terms) // 2, len(terms) - 1)]
